@@ -59,6 +59,8 @@ def famsig(fam, st):
     f0 = fam.split("/")[0]
     if f0 in ("interpreter-test", "bytecode-test"):
         return f0 + ":" + hashlib.sha1(" ; ".join(st).encode("utf8")).hexdigest()[:8]
+    if f0.startswith("zoo-"):
+        return f0
     if f0.startswith("const-"):
         k = fam.split("/")[1]
         return f0 + "/" + (k if k in ("f64", "r64", "c64", "bool", "string") else "typed-literal-kinds")
@@ -190,6 +192,11 @@ def blackbox_family(rep, tier, seed):
     cprogs, tk = const_programs(rep)
     rep.cov["const_universe_cases"] = len(cprogs) // 2
     progs += cprogs
+    # the kernel zoo of C19 (function family x storage form x kind), for the kinds whose literals need no conversion step
+    from areas.c19g import zoo_corpus
+    zoo = [(o, t) for o, t in zoo_corpus(rep) if o.split("/")[-1] in ("f64", "bool", "string")]
+    rep.cov["zoo_programs"] = len(zoo)
+    progs += [("zoo-" + o.split(":")[1].split("/")[0] + "/" + o.split("/")[-1], t.split("\n") if "=>" not in t else [t]) for o, t in zoo]
     reqs = [{"id": i, "mode": "bytecode", "stmts": st} for i, (_, st) in enumerate(progs)]
     outs = execpool.run_requests(reqs, nworkers=16, timeout=25, mem_limit_mb=4096)
     tally = collections.Counter()
@@ -208,6 +215,8 @@ def blackbox_family(rep, tier, seed):
         comp = resp.get("compile", {})
         if comp.get("r") == "panic":
             rep.fail(f"C06/compile-panics/{fam}", f"{st}: compile panics: {comp.get('msg')}", replay); continue
+        # (zoo programs are judged on faithfulness and on panics only: large parts of the stdlib are not registered for
+        #  loading yet, which the must-run families above already record)
         must = fam0.split("/")[0] in ("const-scalar", "const-row", "const-col", "const-mat", "scalar-op", "matrix-op", "index", "index-assign", "range", "opassign", "logic", "string", "slice", "mask", "neg", "bytecode-test")
         if comp.get("r") != "ok":
             if must: rep.fail(f"C06/must-run/compile-error/{fam}", f"{st}: compile error {comp.get('class')} for a program of the must-run class", replay)
